@@ -4,15 +4,19 @@
    the outcome of VerifyIDTokenHint is the abstract [hint] of the request. *)
 From OIDC Require Import Lib C18_Url C18_Url_proofs C18_Session C18_spec C18_proofs.
 
-(* A redirect goes to the provider's default logout URI, or to the requested URI, and then
+(* ts = whether / how the storage implements the optional op.CanTerminateSessionFromRequest
+   (absent, echoes the validated session.RedirectURI, answers a URI of its own - the empty
+   string included -, fails).  StorageChoice ts loc = the storage itself answered loc.
+   A redirect goes to the storage's own choice, to the provider's default logout URI, or to the requested URI, and then
    that URI is registered (exactly or via an opted-in glob) for the client proven by the
    hint's azp or, without a hint, named by client_id; the Location is that URI itself or
    that URI with the state merged into its query (target_of). *)
 Theorem C18_redirect_registered :
   forall (pmatch : string -> string -> pres) (uparse : string -> option purl)
-         (default_uri : string) (cs : list lclient) (r : router) (q : esreq)
+         (default_uri : string) (ts : tsfr) (cs : list lclient) (r : router) (q : esreq)
          (loc user sc : string),
-    end_session pmatch uparse default_uri cs r q = ERedirect loc (user, sc) ->
+    end_session pmatch uparse default_uri ts cs r q = ERedirect loc (user, sc) ->
+    StorageChoice ts loc \/
     exists u, target_of uparse q u loc /\
       (u = default_uri \/
        (u = e_uri q /\ e_uri q <> "" /\
@@ -26,14 +30,14 @@ Print Assumptions C18_redirect_registered.
    hint changes nothing. *)
 Theorem C18_hint_rules :
   forall (pmatch : string -> string -> pres) (uparse : string -> option purl)
-         (default_uri : string) (cs : list lclient) (r : router) (q : esreq),
+         (default_uri : string) (ts : tsfr) (cs : list lclient) (r : router) (q : esreq),
     (e_hint q = HBad ->
-       exists s c, end_session pmatch uparse default_uri cs r q = EPage s c None) /\
+       exists s c, end_session pmatch uparse default_uri ts cs r q = EPage s c None) /\
     (forall ex sub azp, e_hint q = HGood ex sub azp -> e_client q <> "" -> e_client q <> azp ->
-       exists s c, end_session pmatch uparse default_uri cs r q = EPage s c None) /\
+       exists s c, end_session pmatch uparse default_uri ts cs r q = EPage s c None) /\
     (forall sub azp,
-       end_session pmatch uparse default_uri cs r (with_hint q (HGood true sub azp)) =
-       end_session pmatch uparse default_uri cs r (with_hint q (HGood false sub azp))).
+       end_session pmatch uparse default_uri ts cs r (with_hint q (HGood true sub azp)) =
+       end_session pmatch uparse default_uri ts cs r (with_hint q (HGood false sub azp))).
 Proof. exact hint_rules. Qed.
 Print Assumptions C18_hint_rules.
 
@@ -42,20 +46,31 @@ Print Assumptions C18_hint_rules.
    and (model, C18_spec) every answer of a request sequence depends on its own request only. *)
 Theorem C18_foreign_issuer_rejected :
   forall (pmatch : string -> string -> pres) (uparse : string -> option purl)
-         (default_uri : string) (cs : list lclient) (x : ereq) (iss : string) (ex : bool) (sub azp : string),
-    r_tok x = TSigned iss ex sub azp -> iss <> r_issuer x ->
-    exists s c, end_session pmatch uparse default_uri cs (r_router x) (to_esreq x) = EPage s c None.
+         (default_uri : string) (ts : tsfr) (cs : list lclient) (x : ereq) (key iss : string) (ex : bool) (sub azp : string),
+    r_tok x = TSigned key iss ex sub azp -> iss <> r_issuer x ->
+    exists s c, end_session pmatch uparse default_uri ts cs (r_router x) (to_esreq x) = EPage s c None.
 Proof. exact foreign_issuer_rejected. Qed.
 Print Assumptions C18_foreign_issuer_rejected.
 
-(* Whenever TerminateSession is called (redirect, or error page after a failing
+(* The published key set is read for every verification: a hint signed with a key the storage
+   does not publish while THIS request is served (never published, or published during an
+   earlier request of the same provider and withdrawn since) is rejected. *)
+Theorem C18_withdrawn_key_rejected :
+  forall (pmatch : string -> string -> pres) (uparse : string -> option purl)
+         (default_uri : string) (ts : tsfr) (cs : list lclient) (x : ereq) (key iss : string) (ex : bool) (sub azp : string),
+    r_tok x = TSigned key iss ex sub azp -> ~ In key (r_keys x) ->
+    exists s c, end_session pmatch uparse default_uri ts cs (r_router x) (to_esreq x) = EPage s c None.
+Proof. exact withdrawn_key_rejected. Qed.
+Print Assumptions C18_withdrawn_key_rejected.
+
+(* Whenever TerminateSession (or TerminateSessionFromRequest) is called (redirect, or error page after a failing
    TerminateSession) its arguments are the hint's subject and the proven client. *)
 Theorem C18_terminates_right_session :
   forall (pmatch : string -> string -> pres) (uparse : string -> option purl)
-         (default_uri : string) (cs : list lclient) (r : router) (q : esreq),
-    (forall loc user sc, end_session pmatch uparse default_uri cs r q = ERedirect loc (user, sc) ->
+         (default_uri : string) (ts : tsfr) (cs : list lclient) (r : router) (q : esreq),
+    (forall loc user sc, end_session pmatch uparse default_uri ts cs r q = ERedirect loc (user, sc) ->
        user = hint_sub (e_hint q) /\ proven_client q = Some sc) /\
-    (forall s c user sc, end_session pmatch uparse default_uri cs r q = EPage s c (Some (user, sc)) ->
+    (forall s c user sc, end_session pmatch uparse default_uri ts cs r q = EPage s c (Some (user, sc)) ->
        user = hint_sub (e_hint q) /\ proven_client q = Some sc).
 Proof. exact terminates_right_session. Qed.
 Print Assumptions C18_terminates_right_session.
@@ -65,9 +80,10 @@ Print Assumptions C18_terminates_right_session.
    ("state", state) inserted: the state comes back unchanged, whatever bytes it has. *)
 Theorem C18_state_appended :
   forall (pmatch : string -> string -> pres) (uparse : string -> option purl)
-         (default_uri : string) (cs : list lclient) (r : router) (q : esreq)
+         (default_uri : string) (ts : tsfr) (cs : list lclient) (r : router) (q : esreq)
          (loc : string) (t : string * string),
-    end_session pmatch uparse default_uri cs r q = ERedirect loc t -> e_state q <> "" ->
+    end_session pmatch uparse default_uri ts cs r q = ERedirect loc t -> e_state q <> "" ->
+    StorageChoice ts loc \/
     exists u p qs,
       uparse u = Some p /\
       loc = p_pre p +++ "?" +++ qs +++ match p_frag p with Some f => "#" +++ f | None => "" end /\
